@@ -109,7 +109,7 @@ func (e *Engine) resetPath(dec []bool) {
 	e.outputs = 0
 	e.failSeq = 0
 	e.tracking = false
-	e.writes = 0
+	e.changed = false
 	e.realSeq = 0
 }
 
